@@ -113,4 +113,16 @@ def iter (σ : Sem) (b : List Stmt) : Nat → Nat → List Out
       | .ret h' => [.ret h']
       | .stuck => [.stuck])
 
+/-- the body of `addProtobufError` as it is: lock; path unknown → unlock, return; marshal error → unlock,
+    return; unlock -/
+def addErrorFixed : List Stmt :=
+  [.prim .lock, .alt [] [.prim .unlock, .ret], .alt [.prim .unlock, .ret] [], .prim .unlock]
+
+/-- the same with the unlock of the "path not found" exit dropped -/
+def addErrorDropped : List Stmt :=
+  [.prim .lock, .alt [] [.ret], .alt [.prim .unlock, .ret] [], .prim .unlock]
+
+/-- `k` sends in a row -/
+def sends (k : Nat) : List Stmt := List.replicate k (.prim .send)
+
 end GqlgenVerif.SyncProg
